@@ -9,6 +9,8 @@ vars == <<s, ph>>
 Pairings == {
     [name |-> "reframe",   form |-> "grpc",         codec |-> "proto", target |-> "connect", tcodec |-> "proto", method |-> "Bidi"],
     [name |-> "transform", form |-> "grpc",         codec |-> "json",  target |-> "grpc",    tcodec |-> "proto", method |-> "Bidi"],
+    \* the same path with the codecs the other way round: the REQUEST grows when it is re-encoded
+    [name |-> "transform", form |-> "grpc",         codec |-> "proto", target |-> "grpc",    tcodec |-> "json",  method |-> "Bidi"],
     [name |-> "synth",     form |-> "connect_post", codec |-> "proto", target |-> "grpc",    tcodec |-> "proto", method |-> "Post"],
     [name |-> "strip",     form |-> "grpc",         codec |-> "proto", target |-> "connect", tcodec |-> "proto", method |-> "Post"],
     [name |-> "unun",      form |-> "connect_post", codec |-> "json",  target |-> "connect", tcodec |-> "proto", method |-> "Post"],
